@@ -370,6 +370,9 @@ impl<'a> Ev<'a> {
                 }
             }
         }
+        // a value is exactly one variant, whatever the enum: another variant already established excludes this one
+        let prefix = format!("{path} is ");
+        if !st.cond.contains_key(&atom) && st.cond.iter().any(|(a, b)| *b && a.starts_with(&prefix) && *a != atom && !a[prefix.len()..].contains(' ')) { return vec![(st, false)]; }
         self.decide(st, &F::A(atom))
     }
     fn truth(&self, st: St, v: &Val, sp: proc_macro2::Span) -> Vec<(St, bool)> {
@@ -1080,6 +1083,7 @@ impl<'a> Ev<'a> {
                                 let hi = match &deps[1] { Val::Int(i) => *i as usize, _ => x.len() };
                                 if lo <= hi && hi <= x.len() { Val::Str(x[lo..hi].to_string()) } else { Val::opaque("index", vec![base.clone(), idx]) }
                             }
+                            (Val::Sym { ty, path }, _) if ty.arg0().name() == Some("bool") => Val::Atom(F::A(format!("{path}[{}]", idx.short()))),
                             (Val::Sym { ty, path }, _) => Val::Sym { ty: ty.arg0(), path: format!("{path}[{}]", idx.short()) },
                             _ => Val::opaque("index", vec![base.clone(), idx]),
                         };
@@ -1169,7 +1173,17 @@ impl<'a> Ev<'a> {
                 if let Some(x) = &hi { es.push(x); }
                 let has_lo = lo.is_some();
                 self.eval_args(st, &es).into_iter().map(|(s, r)| match r {
-                    Ok(vs) => { let mut it = vs.into_iter(); let l = if has_lo { it.next().unwrap_or(Val::Unit) } else { Val::Unit }; let h = it.next().unwrap_or(Val::Unit); (s, Flow::Val(Val::opaque("range", vec![l, h]))) }
+                    Ok(vs) => {
+                        let mut it = vs.into_iter(); let l = if has_lo { it.next().unwrap_or(Val::Unit) } else { Val::Unit }; let h = it.next().unwrap_or(Val::Unit);
+                        let v = match (&l, &h) {
+                            // `0..n`: the indices themselves
+                            (Val::Int(a), Val::Int(b)) if *a <= *b && b - a <= 16 => Val::Array((*a..*b).map(Val::Int).collect()),
+                            // `0..coll.len()`: the index of the one symbolic element, in step with iterating the collection
+                            (Val::Int(0), Val::Opaque { what, deps }) if deps.is_empty() && what.starts_with("len(") && what.ends_with(')') => { let coll = what[4..what.len() - 1].to_string(); Val::Rep { coll: coll.clone(), items: vec![Val::Sym { ty: Ty::Named("usize".into(), vec![]), path: format!("{coll}[*]#index") }] } }
+                            _ => Val::opaque("range", vec![l, h]),
+                        };
+                        (s, Flow::Val(v))
+                    }
                     Err(f) => (s, f),
                 }).collect()
             }
@@ -1335,6 +1349,12 @@ impl<'a> Ev<'a> {
                         }
                     }
                 }
+            }
+            syn::Expr::Index(ie) => {
+                // `place[index] = v`: recorded like a field assignment, the index spelt by its value
+                let idx = self.eval_expr(st.clone(), &ie.index).into_iter().find_map(|(_, fl)| if let Flow::Val(v) = fl { Some(v.short()) } else { None }).unwrap_or_else(|| ie.index.to_token_stream().to_string());
+                st.events.push(Event::Note(format!("field-assign {}[{}]", ie.expr.to_token_stream(), idx)));
+                let _ = v;
             }
             _ => self.unsup("assignment target", left.span()),
         }
@@ -1739,6 +1759,18 @@ impl<'a> Ev<'a> {
                 }
                 continue;
             }
+            // `module::free_fn(..)`
+            if ty.chars().next().map(|c| c.is_lowercase()).unwrap_or(false) && !self.ix.structs.contains_key(&ty) && !self.ix.enums.contains_key(&ty) {
+                if let Some(f) = self.ix.get_fn(&last) { if f.self_ty.is_none() { r.extend(self.call_fn(s, &f, None, vs)); continue; } }
+            }
+            if ty == "Ident" && (last == "new" || last == "new_raw") && !vs.is_empty() {
+                let site = self.site(c.span());
+                let ok = matches!(self.deref(&s, &vs[0]), Val::Str(ref x) if !x.is_empty() && x.chars().next().map(|c| c.is_alphabetic() || c == '_').unwrap_or(false) && x.chars().all(|c| c.is_alphanumeric() || c == '_'));
+                let mut s = s;
+                s.events.push(Event::Note(format!("ident-new {} {site}", if ok { "constant" } else { "computed" })));
+                r.push((s, Flow::Val(Val::opaque("call Ident::new", vs))));
+                continue;
+            }
             if last == "default" && vs.is_empty() {
                 if let Some(sd) = self.ix.structs.get(&ty) {
                     if sd.derives.iter().any(|d| d == "Default") {
@@ -1747,6 +1779,16 @@ impl<'a> Ev<'a> {
                         continue;
                     }
                 }
+            }
+            if last == "from_iter" && vs.len() == 1 && matches!(ty.as_str(), "Vec" | "TokenStream" | "HashSet" | "BTreeSet") {
+                let a = self.deref(&s, &vs[0]);
+                if let Some(seq) = self.seq_of(&a) { r.push((s, Flow::Val(Val::List(seq)))); continue; }
+                if let Some(forks) = self.opt_forks(s.clone(), &a) {
+                    for (s2, o) in forks { r.push((s2, Flow::Val(Val::List(match o { eval_lib::OptV::Some(x) => vec![x], eval_lib::OptV::None => vec![] })))); }
+                    continue;
+                }
+                if matches!(a, Val::Rep { .. }) { r.push((s, Flow::Val(Val::List(vec![a])))); continue; }
+                if matches!(a, Val::List(_)) { r.push((s, Flow::Val(a))); continue; }
             }
             if ((last == "new" && vs.is_empty()) || (last == "with_capacity" && vs.len() == 1)) && (ty == "Vec" || ty == "TokenStream") {
                 r.push((s, Flow::Val(Val::List(vec![]))));
@@ -1947,7 +1989,7 @@ impl<'a> Ev<'a> {
             ("is_none", Val::Sym { ty, path }) if ty.name() == Some("Option") => Val::Atom(F::Not(Box::new(F::A(path.clone())))),
             ("is_some", Val::Enum { var, .. }) => Val::Bool(var == "Some"),
             ("is_none", Val::Enum { var, .. }) => Val::Bool(var == "None"),
-            ("as_ref" | "as_mut" | "clone" | "iter" | "into_iter" | "iter_mut" | "to_owned" | "as_str" | "borrow" | "cloned" | "copied" | "into_token_stream" | "to_token_stream" | "as_slice" | "as_deref" | "by_ref" | "borrow_mut" | "to_vec" | "into", _) if name != "into" || matches!(rv, Val::Tmpl(_) | Val::List(_)) => rv.clone(),
+            ("as_ref" | "as_mut" | "clone" | "iter" | "into_iter" | "iter_mut" | "to_owned" | "as_str" | "borrow" | "cloned" | "copied" | "into_token_stream" | "to_token_stream" | "as_slice" | "as_deref" | "by_ref" | "borrow_mut" | "to_vec" | "into", _) if name != "into" || matches!(rv, Val::Tmpl(_) | Val::List(_)) || matches!(&rv, Val::Sym { ty, .. } if ty.name() == Some("TokenStream")) => rv.clone(),
             ("enumerate", Val::Array(vs)) => Val::Array(vs.iter().enumerate().map(|(i, v)| Val::Tuple(vec![Val::Int(i as i128), v.clone()])).collect()),
             ("enumerate", Val::Sym { .. }) => Val::opaque("enumerate", vec![rv.clone()]),
             ("len", Val::Array(vs)) => Val::Int(vs.len() as i128),
@@ -1960,6 +2002,7 @@ impl<'a> Ev<'a> {
             ("ends_with", Val::Str(x)) if matches!(args.first(), Some(Val::Str(_))) => { let Some(Val::Str(sfx)) = args.first() else { unreachable!() }; Val::Bool(x.ends_with(sfx.as_str())) }
             ("starts_with", Val::Str(x)) if matches!(args.first(), Some(Val::Str(_))) => { let Some(Val::Str(sfx)) = args.first() else { unreachable!() }; Val::Bool(x.starts_with(sfx.as_str())) }
             ("to_string" | "to_owned" | "as_str", Val::Str(_)) => rv.clone(),
+            ("write_str", Val::Sym { ty, .. }) if ty.name() == Some("Formatter") && matches!(args.first(), Some(Val::Str(_))) => { st.events.push(Event::Write { fmt: "{}".into(), args: vec![args[0].clone()] }); Val::ok(Val::Unit) }
             ("fmt", Val::Str(x)) => { st.events.push(Event::Write { fmt: "{}".into(), args: vec![Val::Str(x.clone())] }); Val::ok(Val::Unit) }
             ("to_string", Val::Struct { .. }) | ("to_string", Val::Enum { .. }) if self.display_string(&rv).is_some() => Val::Str(self.display_string(&rv).unwrap()),
             ("rev", Val::Array(vs)) => Val::Array(vs.iter().rev().cloned().collect()),
@@ -2090,6 +2133,15 @@ impl<'a> Ev<'a> {
                     }
                 }
                 return r;
+            }
+            ("retain", Val::Sym { .. }) if matches!(args.first(), Some(Val::Closure(_))) && self.sym_iter(&rv).is_some() => {
+                // which elements are kept: the closure's verdict on the one symbolic element
+                let Some(Val::Closure(cv)) = args.first() else { unreachable!() };
+                let (_, elem) = self.sym_iter(&rv).unwrap();
+                let outs = self.call_closure(st.clone(), cv, vec![elem]);
+                let verdict = if outs.len() == 1 { match &outs[0].1 { Flow::Val(Val::Atom(F::Not(x))) => match &**x { F::A(a) => format!("retain-not {a}"), _ => "retain-other".into() }, Flow::Val(Val::Atom(F::A(a))) => format!("retain-if {a}"), _ => "retain-other".into() } } else { "retain-other".into() };
+                st.events.push(Event::Note(format!("mutcall {}.retain(<closure>) {verdict}", rv.short().chars().take(80).collect::<String>())));
+                Val::Unit
             }
             _ => {
                 if matches!(name, "insert" | "push" | "extend" | "retain" | "remove" | "push_str" | "clear" | "truncate" | "pop" | "sort" | "dedup" | "reverse") || name.starts_with("visit_") {
